@@ -77,6 +77,12 @@ CLAIMED = {
   "note": "Trusted: Lean kernel; the tree alphabet excludes names that only a double-quoted identifier can produce and literals whose default printing is not exact (the property's own exclusion); ExprReply parts are not rendered by the core crate and are not compared.",
   "design_ref": "DESIGN.md §7 C11, Appendix A.1",
  },
+ "C16": {
+  "technique": "Lean 4 proof about Substance::get for every substance, amount and dimensionality (linear, inverse, wrong-dimension, scaling) and about the formula sum for every symbol list + API-level correspondence on every substance/property and formula with the laws as oracle",
+  "text": "For every substance and every property reached by a name that no earlier property answers to (Skips): an amount a in the input dimensionality gives output*(a/input) exactly in the output's dimensionality (get_linear); an amount in the output dimensionality gives back input*(a/output), so the round trip returns a (get_inverse, roundtrip_value); an amount of another canonical dimensionality is a conformance error (get_wrong_dim, via extensionality of canonical exponent vectors); multiplying a substance by c multiplies what get returns by c (get_scales); the molar mass of a formula is the exact count-weighted sum (formula_sum) and unknown symbols, stray counts, error tokens and the empty string are rejected. The model of Substance::get and substance_from_formula is compared with the implementation on every substance and property of the database with rational amounts in four dimensionalities and four kinds of names, and on thousands of formulas with counts up to 2^32-1 and near misses; the laws are re-evaluated on the implementation's answers, also through `<name> of <amount> <substance>` queries.",
+  "note": "Trusted: Lean kernel + Mathlib; database properties come from the registry dump; whole-substance reply rendering (to_reply / get_in_unit) and substance addition are not modelled; the formula tokenizer's string level is modelled and compared, the theorem is at token level.",
+  "design_ref": "DESIGN.md §7 C16",
+ },
 }
 
 NOT_YET = {
